@@ -376,6 +376,11 @@ def run(ctx):
     from .c02 import run_r5 as c02_r5
     r5 = ctx.rule("C04-R5", "a failing read is parked as the I/O error whatever its kind; only Ok(0) is a clean end (shared with C02-R5)", floor=20)
     c02_r5(ctx, r5)
+    # R6: the parked error is reported because the parser comes to an end: a token that matches without consuming lets
+    # a loop over alternatives spin on the spot where the source failed (eof falls through while an error is parked)
+    from .c05 import run_r7 as c05_r7
+    r6 = ctx.rule("C04-R6", "a token that reports a match has moved the cursor: no loop can spin in front of a parked error (shared with C05-R7)", floor=30)
+    c05_r7(ctx, r6)
     return _RET[0]
 
 
